@@ -154,8 +154,14 @@ func stmts(c *ex.Ctx, list []ast.Stmt, g string, out *[]string) {
 			}
 			stmts(c, s.Body.List, g2, out)
 		case *ast.DeferStmt:
+			if isVerifHook(c, s.Call) {
+				continue
+			}
 			*out = append(*out, fmt.Sprintf(".deferCall %s", ex.LeanStr(strings.TrimSuffix(strings.TrimPrefix(c.Src(s.Call), "vx."), "()"))))
 		case *ast.ExprStmt:
+			if isVerifHook(c, s.X) {
+				continue
+			}
 			call(c, s.X, g, out)
 		case *ast.AssignStmt:
 			if len(s.Rhs) == 1 {
@@ -169,6 +175,17 @@ func stmts(c *ex.Ctx, list []ast.Stmt, g string, out *[]string) {
 			*out = append(*out, fmt.Sprintf(".other %s %s", g, ex.LeanStr(firstLine(c.Src(s)))))
 		}
 	}
+}
+
+// isVerifHook: a call of a package-level function whose name starts with "verif" — the yield/fault points of the
+// verification hooks (empty functions without the `verif` build tag); they are not part of the library's behaviour.
+func isVerifHook(c *ex.Ctx, e ast.Expr) bool {
+	ce, ok := e.(*ast.CallExpr)
+	if !ok {
+		return false
+	}
+	id, ok := ce.Fun.(*ast.Ident)
+	return ok && strings.HasPrefix(id.Name, "verif")
 }
 
 func allBlank(l []ast.Expr) bool {
